@@ -139,9 +139,12 @@ DevSectoredNoCompressFlag(b) == ~b.single /\ "COMPRESS" \notin b.flags       \* 
 UnitRejected(b, j) == b.secs[j].shrunk /\ PreCheck(b.method, b.secs[j].st - 1, b.secs[j].r) # "ok"
 DevLimitRejectsOwnOutput(b) == \E j \in 1..Len(b.secs) : UnitRejected(b, j)  \* F-C01-b
 DevCodec(b) == AnyShrunk(b.secs) /\ DecodeClass(b.method) # "ok"              \* dispatch deviations of the codec layer
+\* single-unit + SECTOR_CRC: the writer's checksum is over the ORIGINAL bytes, the reader compares it with the
+\* DECODED bytes -- which differ whenever a lossy (ADPCM) stage was applied
+DevLossyCrc(b) == b.single /\ "SECTOR_CRC" \in b.flags /\ b.secs[1].shrunk /\ LossySel(b.method)
 
 \* Outcome class of reading block b under name nm:
-\*   "exact" | "err:limit" | "err:codec" | "panic" | "zerofill" (F-C01-c) | "table-prepended" | "garbage"
+\*   "exact" | "err:limit" | "err:codec" | "err:crc" | "panic" | "zerofill" (F-C01-c) | "table-prepended" | "garbage"
 ReadBlock(b, nm) ==
   LET keyOk == "ENCRYPTED" \notin b.flags \/ KeyFor(nm, "FIX_KEY" \in b.flags, b.pos, b.fsize) = b.key IN
   IF ReaderDirect(b) THEN
@@ -152,6 +155,7 @@ ReadBlock(b, nm) ==
           ELSE IF UnitRejected(b, 1) THEN "err:limit"
           ELSE IF DecodeClass(b.method) = "panic" THEN "panic"
           ELSE IF DecodeClass(b.method) = "err" THEN "err:codec"
+          ELSE IF DevLossyCrc(b) THEN "err:crc"
           ELSE "exact"
      ELSE "exact"
   ELSE \* sectored
@@ -267,6 +271,7 @@ Explained(b, out) ==
   \/ DevSectoredNoCompressFlag(b) /\ out \in {"table-prepended", "garbage"}
   \/ DevLimitRejectsOwnOutput(b) /\ out \in {"err:limit", "zerofill"}
   \/ DevCodec(b) /\ out \in {"panic", "err:codec", "zerofill"}
+  \/ DevLossyCrc(b) /\ out = "err:crc"
 ReadBack == vlast.kind = "file" => (vlast.out = "exact" \/ Explained(vblocks[vlast.file], vlast.out))
 ReadBackNeverNotFound == vlast.kind = "file" => vlast.out # "notfound"
 AbsentNotFound == vlast.kind = "absent" => vlast.out = "notfound"
